@@ -544,6 +544,29 @@ impl Parser {
                         if !self.peek(&TokenEnum::RightBrace) && !self.peek(&TokenEnum::Comma) {
                             self.expect(&TokenEnum::Semicolon)?;
                         }
+                        // `a[i] op= v` is `a[i] = a[i] op v`: an index that is not a plain variable or
+                        // number is bound to a hidden variable first, so that it is evaluated only once
+                        let mut accessors = accessors;
+                        let mut hidden_index_vars = vec![];
+                        for (k, (access, _)) in accessors.iter_mut().enumerate() {
+                            if let Accessor::ArrayAccess { index, .. } = access {
+                                if !matches!(
+                                    index.inner,
+                                    ExprEnum::Identifier(_) | ExprEnum::NumUnsigned(_, _)
+                                ) {
+                                    let index_meta = index.meta;
+                                    // `$` cannot occur in an identifier of the source code
+                                    let name = format!("$index{k}");
+                                    let var =
+                                        Expr::untyped(ExprEnum::Identifier(name.clone()), index_meta);
+                                    let value = std::mem::replace(index, var);
+                                    let pattern =
+                                        Pattern::untyped(PatternEnum::Identifier(name), index_meta);
+                                    hidden_index_vars
+                                        .push(Stmt::new(StmtEnum::Let(pattern, None, value), index_meta));
+                                }
+                            }
+                        }
                         let mut target = Expr::untyped(
                             ExprEnum::Identifier(identifier.clone()),
                             identifier_meta,
@@ -577,10 +600,17 @@ impl Parser {
                             ExprEnum::Op(op, Box::new(target), Box::new(value)),
                             meta,
                         );
-                        Stmt::new(
+                        let assign = Stmt::new(
                             StmtEnum::VarAssign(identifier.clone(), accessors, binary_op),
                             meta,
-                        )
+                        );
+                        if hidden_index_vars.is_empty() {
+                            assign
+                        } else {
+                            hidden_index_vars.push(assign);
+                            let block = Expr::untyped(ExprEnum::Block(hidden_index_vars), meta);
+                            Stmt::new(StmtEnum::Expr(block), meta)
+                        }
                     } else {
                         if !self.peek(&TokenEnum::RightBrace) && !self.peek(&TokenEnum::Comma) {
                             self.expect(&TokenEnum::Semicolon)?;
